@@ -222,7 +222,89 @@ func genOptions(r *rand.Rand) *refsem.Options {
 	return o
 }
 
+var c01Zoo = univ.Zoo()
+
+var c01MatrixLits = []string{"abc", "5", "1.5", "true", "", "x", "7", "99999999999999999999", "1e999", "0x5", "05", "-5", "261", "^a", "(", "a", "l", "1e2", "100", "5.0"}
+
+// c01Matrix: one zoo entry x 3 holders (and selector spellings) x 8
+// operators x 20 literal classes x a sub-path into the value - enumerated
+// completely on every run.
+func c01Matrix(c *mon.Ctx, idx int) {
+	z := c01Zoo[idx]
+	wrapT := univ.StructOf(univ.Field{Name: "V", Tag: `bexpr:"v"`, Type: z.N.T}, univ.Field{Name: "hidden", Type: univ.TInt, Unexported: true})
+	holders := []struct {
+		name  string
+		datum *univ.Node
+		sel   []xgen.Sel
+	}{
+		{"map", univ.IfaceMap("v", z.N), []xgen.Sel{{Parts: []string{"v"}}, {Parts: []string{"v"}, JSONPointer: true}}},
+		{"struct", univ.Struct(wrapT, z.N, univ.Int(1)), []xgen.Sel{{Parts: []string{"v"}}}},
+		{"nested", univ.IfaceMap("o", univ.IfaceMap("v", z.N)), []xgen.Sel{{Parts: []string{"o", "v"}, Spell: []int{xgen.SpDot, xgen.SpBrackDQ}}, {Parts: []string{"o", "v"}, JSONPointer: true}}},
+		{"ptr-struct", univ.Ptr(univ.Struct(wrapT, z.N, univ.Int(1))), []xgen.Sel{{Parts: []string{"v"}, JSONPointer: true}}},
+	}
+	subs := [][]string{nil, {"0"}, {"abc"}, {"5"}, {"A"}, {"zz"}}
+	n := 0
+	for _, h := range holders {
+		for _, base := range h.sel {
+			for si, sub := range subs {
+				sel := base.Clone()
+				sel.Parts = append(sel.Parts, sub...)
+				sel.Spell = nil
+				if sel.JSONPointer && !xgen.CanPointer(sel.Parts) {
+					continue
+				}
+				for op := xgen.Op(0); op < 8; op++ {
+					lits := c01MatrixLits
+					if !op.HasValue() {
+						lits = lits[:1]
+					}
+					if si > 0 {
+						lits = lits[:6] // sub-paths: fewer literal classes
+					}
+					for _, l := range lits {
+						m := &xgen.Match{Sel: sel, Op: op}
+						if op.HasValue() {
+							m.Lit = &xgen.Lit{S: l, Style: xgen.StyleQuoted}
+							m.Contains = n%2 == 0
+						}
+						n++
+						ec := &evalCase{Expr: m, Text: (&xgen.Renderer{Plain: true, KeepSpell: true}).Render(m), Datum: h.datum}
+						cls, allowed := checkAgainstReference(c, "C01", ec, "matrix/"+z.Name+"@"+h.name)
+						if cls != "" && allowed.Unspec == "" {
+							c.Count("outcome:" + cls)
+							if si == 0 {
+								c.Count("matrix:" + op.String() + "/" + z.Name)
+							}
+							c.Distinct("matrix|" + z.Name + "|" + h.name + "|" + ec.Text)
+						}
+					}
+				}
+			}
+		}
+		// quantifiers over the value
+		for _, qt := range []string{"any %s as x { x == 5 }", "all %s as x { x != 7 }", "any %s as k, v { v == 5 or k == abc }", "all %s as k, _ { k != zz }", "any %s as _, v { v.A == 5 }", "any %s as x { x is empty }"} {
+			text := fmt.Sprintf(qt, (&xgen.Renderer{Plain: true}).RenderSel(h.sel[0]))
+			v, err, _, _ := parsePublic(text)
+			if err != nil {
+				continue
+			}
+			tree, terr := treeOf(v)
+			if terr != nil {
+				continue
+			}
+			checkAgainstReference(c, "C01", &evalCase{Expr: tree, Text: text, Datum: h.datum}, "matrix-quant/"+z.Name+"@"+h.name)
+			c.Count("matrix_quantifiers")
+		}
+	}
+	c.Count("matrix_entries")
+	c.Sample(map[string]any{"kind": "matrix entry", "value": z.Name, "go_type": z.N.T.String(), "cases": n})
+}
+
 func c01Run(c *mon.Ctx, idx int) {
+	if idx < len(c01Zoo) {
+		c01Matrix(c, idx)
+		return
+	}
 	r := c.RNG(idx)
 	doc := univ.GenObj(r, 3, true)
 	reprSeed := r.Int63()
@@ -259,13 +341,18 @@ func c01Run(c *mon.Ctx, idx int) {
 var c01Ops = []string{"==", "!=", "in", "not in", "is empty", "is not empty", "matches", "not matches"}
 
 func c01Required(tier string) []string {
-	l := []string{"outcome:T", "outcome:F", "outcome:E", "reach:resolve:not-present", "reach:resolve:error", "reach:quant:slice", "reach:quant:map", "reach:quant:not-present"}
+	l := []string{"matrix_entries", "matrix_quantifiers", "outcome:T", "outcome:F", "outcome:E", "reach:resolve:not-present", "reach:resolve:error", "reach:quant:slice", "reach:quant:map", "reach:quant:not-present"}
 	for _, p := range univ.PolicyNames {
 		l = append(l, "repr:"+p)
 	}
 	for _, op := range c01Ops {
 		for _, k := range []string{"string", "float64", "bool", "slice", "map", "invalid", "int", "struct"} {
 			l = append(l, "reach:op:"+op+"/"+k)
+		}
+	}
+	for _, op := range c01Ops {
+		for _, z := range c01Zoo {
+			l = append(l, "matrix:"+op+"/"+z.Name)
 		}
 	}
 	// inhabited outcome cells that the workload is designed to hit
@@ -281,14 +368,20 @@ func c01Required(tier string) []string {
 func init() {
 	mon.Register(&mon.Prop{
 		ID: "C01", Level: "exploration",
-		Rule: "a seeded logical JSON-like document (boundary scalars, nested objects/lists, odd keys) is materialised in 5 Go representations (all-interface{}, json.Number, typed containers+tagged structs incl. hidden/unexported fields, typed+pointers, per-node mix); 3 datum-directed expressions per case (depth<=4, quantifier nesting<=3, every operator, binding mode, selector spelling, literal style; 25% deliberately broken paths; literals equal / different / ill-typed) are rendered, passed through the real parser and Evaluate, and compared with the set of outcomes an independent interpreter of the documented semantics allows (options: tag name, unknown value). non-trivial = the reference determines the outcome (not on the explicit unspecified list); distinct by (canonical expression, datum representation shape, options)",
+		Rule: "(a) deterministic matrix, enumerated completely on every run: a zoo of ~95 value shapes (14 scalar kinds, named types, json.Number incl. hostile ones, nil, pointer levels, typed / named / interface slices and arrays with nil and odd elements, string / named-string / int / bool / float / interface keyed maps, structs, chan/func/complex) x 4 holders and selector spellings x 6 sub-paths x 8 operators x 20 literal classes (matching, ill-typed, out-of-range, base-prefixed, wrap-around) + 6 quantifier forms; (b) a seeded logical JSON-like document (boundary scalars, nested objects/lists, odd keys) is materialised in 5 Go representations (all-interface{}, json.Number, typed containers+tagged structs incl. hidden/unexported fields, typed+pointers, per-node mix); 3 datum-directed expressions per case (depth<=4, quantifier nesting<=3, every operator, binding mode, selector spelling, literal style; 25% deliberately broken paths; literals equal / different / ill-typed) are rendered, passed through the real parser and Evaluate, and compared with the set of outcomes an independent interpreter of the documented semantics allows (options: tag name, unknown value). non-trivial = the reference determines the outcome (not on the explicit unspecified list); distinct by (canonical expression, datum representation shape, options)",
 		Assumptions: []string{
 			"reference semantics = internal/refsem, written from README/doc comments/property statements; cases on its explicit unspecified list (counted as unspecified_skipped with the reason) are not compared",
 			"literal spellings are those of strconv (ParseBool, base-0 ParseInt/ParseUint, ParseFloat), which is the documented meaning",
 			"for maps, quantifiers may visit entries in any order: the reference returns the set of outcomes reachable under some order",
 		},
-		NumCases: func(tier string) int { return tierN(tier, 12000, 600000) },
+		NumCases: func(tier string) int { return len(c01Zoo) + tierN(tier, 12000, 600000) },
 		Run:      c01Run,
+		Chunk: func(tier string, n int) int {
+			if tier == "thorough" {
+				return 3000
+			}
+			return 100
+		},
 		Required: c01Required,
 	})
 }
